@@ -42,3 +42,20 @@ From BL Require Import Proofs.Swap.
 Theorem C12_clear_forgets : forall O r r', static_eq r r' -> fst (do_clear O r) = fst (do_clear O r').
 Proof. exact clear_forgets. Qed.
 Print Assumptions C12_clear_forgets.
+
+(* ... and it does not: from the CLEAR that opens RUN's code on, the fetch loop produces the same states and the same
+   events on any two machines that agree on the static part, for any number of instructions (tracing either off, or the
+   CLEAR sitting in direct-mode code, which is where RUN puts it) *)
+From BL Require Import Proofs.Slicing Proofs.RunForgets.
+Theorem C12_run_forgets : forall O n h r r', static_eq r r' -> nthN (l_ops (pg_link (r_prog r))) (r_pc r) = Some OpClear ->
+  (r_tron r = false \/ prog_line_for r (r_pc r) = None) ->
+  exec_loop_x O (S n) h r = exec_loop_x O (S n) h r'.
+Proof. exact run_forgets. Qed.
+Print Assumptions C12_run_forgets.
+
+(* two machines with different dynamic parts meet the premises *)
+Theorem C12_run_forgets_applies :
+  static_eq demo_machine demo_machine_used /\ demo_machine <> demo_machine_used
+  /\ nthN (l_ops (pg_link (r_prog demo_machine))) (r_pc demo_machine) = Some OpClear /\ r_tron demo_machine = false.
+Proof. exact run_forgets_premises. Qed.
+Print Assumptions C12_run_forgets_applies.
